@@ -144,7 +144,7 @@ def apply_mop(n, m):
         # public reorder setters (they accept permutations of the current members only)
         kind, parent, perm = m[1], resolve(n, m[2]), m[3]
         attr = {'library': 'libraries', 'definition': 'definitions', 'port': 'ports', 'cable': 'cables',
-                'child': 'children', 'pin': 'pins'}[kind]
+                'child': 'children', 'pin': 'pins', 'portpin': 'pins'}[kind]
         cur = list(getattr(parent, attr))
         if sorted(perm) != list(range(len(cur))):
             raise ValueError(m)
@@ -489,6 +489,31 @@ def m_net_bit(rng, n):
     return mops
 
 
+def m_port_bits(rng, n):
+    """the pins of a multi-bit port are re-ordered (public Port.pins setter): every net that touches the port - inside
+    the cell and on every instance of it - now touches another BIT of it; widths, names and the number of
+    connections stay the same"""
+    cands = []
+    for i, j, d in _defs(n):
+        for k, p in enumerate(d.ports):
+            pins = list(p.pins)
+            if len(pins) >= 2:
+                marks = []
+                for ip in pins:
+                    outer = tuple(sorted(id(x.pins[ip].wire) for x in d.references if ip in x.pins))
+                    marks.append((id(ip.wire), outer))
+                if len(set(marks)) >= 2:
+                    cands.append((i, j, k, marks))
+    if not cands:
+        raise Inapplicable('no multi-bit port whose bits are connected differently')
+    i, j, k, marks = _pick(rng, cands)
+    for _ in range(20):
+        perm = _perm(rng, len(marks))
+        if [marks[x] for x in perm] != marks:
+            return [['reorder', 'portpin', ['P', i, j, k], perm]]
+    raise Inapplicable('no effective permutation')
+
+
 def _shape(d):
     return [len(p.pins) for p in d.ports]
 
@@ -719,6 +744,7 @@ CLASSES = {
     'conn_port_in': (_m_conn_inner('port'), 'conn_port_in'),
     'conn_bit_in': (_m_conn_inner('bit'), 'conn_bit_in'),
     'net_bit': (m_net_bit, 'net_bit'),
+    'port_bits': (m_port_bits, 'port_bits'),
     'inst_ref': (m_inst_ref, 'inst_ref'),
     'top_ref': (m_top_ref, 'top_ref'),
     'prop_value': (m_prop_value, 'prop_value'),
